@@ -332,7 +332,7 @@ def case_s(depth):
     from hypothesis import strategies as st
 
     return tree_s(depth).flatmap(
-        lambda t: st.tuples(st.sampled_from(pattern_pool(t, False)), st.sampled_from(pattern_pool(t, True)), st.sampled_from([1, 8, 16, 64, 1024]), st.sampled_from([0] + [1] * 7)).map(
+        lambda t: st.tuples(st.sampled_from(pattern_pool(t, False)), st.sampled_from(pattern_pool(t, True)), st.one_of(st.sampled_from([1, 8, 16, 64, 1024]), st.integers(1, 300)), st.sampled_from([0] + [1] * 7)).map(
             lambda p: {"tree": t, "omit": p[0], "dep": p[1], "eb": p[2], "sign": p[3] == 0}))
 
 
